@@ -178,8 +178,8 @@ class FakeSock:
     def sendall(self, data):
         if self.closed:
             raise OSError(errno.EBADF, "bad file descriptor")
-        if self.reset:
-            raise ConnectionResetError(errno.ECONNRESET, "connection reset")
+        if self.reset or self.reset_after_drain:
+            raise ConnectionResetError(errno.ECONNRESET, "connection reset")      # the RST has arrived (unread bytes stay readable)
         data = bytes(data)
         if self.client and self.net.hook is not None:
             data = self.net.hook.before_send(self, data)
@@ -234,7 +234,7 @@ class FakeSock:
     def shutdown(self, how):
         if self.closed:
             raise OSError(errno.EBADF, "bad file descriptor")
-        if self.reset:
+        if self.reset or self.reset_after_drain:
             raise OSError(errno.ENOTCONN, "transport endpoint is not connected")     # as a real socket after a RST
         if self.peer is not None:
             self.peer.eof = True
